@@ -8,6 +8,7 @@ import (
 	"runtime/debug"
 	"strings"
 	"testing"
+	"time"
 
 	"github.com/bitcoin-sv/block-headers-service/verifharness/stats"
 	"github.com/rs/zerolog"
@@ -170,8 +171,14 @@ func (p Prop[P]) Check(t *testing.T) {
 	rapid.Check(t, func(rt *rapid.T) {
 		plan := p.Gen(rt)
 		c, err := safeRun(p.Run, plan)
+		for try := 0; try < 2 && err != nil && strings.HasPrefix(err.Error(), "infra:"); try++ {
+			// the harness itself failed (a listener, a database file, a start-up): try the same plan again
+			stats.Count("infra_retries", 1)
+			time.Sleep(300 * time.Millisecond)
+			c, err = safeRun(p.Run, plan)
+		}
 		if err != nil && strings.HasPrefix(err.Error(), "infra:") {
-			// the harness itself failed: undecided, never a violation
+			// undecided, never a violation
 			rt.Fatalf("%v", err)
 		}
 		if err != nil {
